@@ -1823,3 +1823,14 @@ package resolve
 //@   at call SetInputUndefinedVariables: assert {the.key.covers.the.variables.removed.from.the.request} g_keyed ==> (arr(arg1) == g_keyArr && len(arg1) == g_keyLen)
 //@   modifies *, count(*)
 //@   safety none
+
+// ----------------------------------------------------------------------------------------------
+// C15, a variable rendered as a GraphQL literal: the literal is placed inside the JSON string that carries the
+// query, so whatever is written for a string value must not contain a raw control byte (the request body would not
+// be JSON any more)
+//@ func GraphQLVariableRenderer.renderGraphQLValue
+//@   ghost var g_str bool = false
+//@   at call Value.GetStringBytes: ghost g_str = true
+//@   at call Writer.Write: assert {a.string.value.puts.no.raw.control.byte.into.the.request} g_str ==> (forall k in 0..len(arg1) :: arg1[k] >= 32)
+//@   modifies *, count(*)
+//@   safety none
